@@ -165,6 +165,9 @@ func wire(b *bytes.Buffer, v *redis.RespValue) {
 type ChunkReader struct {
 	Chunks [][]byte
 	Reads  int
+	// ErrWithLast: the read that delivers the last bytes returns io.EOF together with them (io.Reader allows it;
+	// crypto/tls and iotest.DataErrReader do it)
+	ErrWithLast bool
 }
 
 func (c *ChunkReader) Read(p []byte) (int, error) {
@@ -179,6 +182,15 @@ func (c *ChunkReader) Read(p []byte) (int, error) {
 	c.Chunks[0] = c.Chunks[0][n:]
 	if len(c.Chunks[0]) == 0 {
 		c.Chunks = c.Chunks[1:]
+	}
+	if c.ErrWithLast {
+		rest := 0
+		for _, ch := range c.Chunks {
+			rest += len(ch)
+		}
+		if rest == 0 {
+			return n, io.EOF
+		}
 	}
 	return n, nil
 }
